@@ -1213,13 +1213,19 @@ func whoPrune(r *engine.Run, rule string) {
 // a rollback that treats a zero-weight root as empty installs the empty trie.
 //
 // Rule: among the comparisons of core/util/wmpt that involve a weight (a load of
-// a weight field, a Weight() call), none compares it with the constant 0.
+// a weight field, a Weight() call), none compares it with the constant 0 -
+// outside the block-owner search of the prover and verifier, where passing over
+// a weightless subtree changes nothing.
 func presenceByWeight(r *engine.Run, rule string) {
 	n := 0
+	// the search for the owner of a block may pass over weightless subtrees: a
+	// block number is at least 1, so nothing of weight 0 owns one
+	search := map[string]bool{"getBlockProof": true, "GetBlockProof": true, "verifyProof": true, "VerifyBlockProof": true}
 	for _, f := range funcsOfPkg(r, pkgWMPT) {
 		if len(f.Blocks) == 0 {
 			continue
 		}
+		inSearch := search[engine.TopFunc(f).Name()]
 		o := ord{}
 		engine.Instrs(f, func(in ssa.Instruction) {
 			b, ok := in.(*ssa.BinOp)
@@ -1248,7 +1254,7 @@ func presenceByWeight(r *engine.Run, rule string) {
 				return
 			}
 			n++
-			if weightTest(b) {
+			if weightTest(b) && !inSearch {
 				r.Fail(rule, o.next(fn(f)+"|weight compared with 0"), r.P.Pos(b.Pos()), "a weight is compared with 0 to decide whether something is there: entries of weight 0 are entries (their hashes are committed to by their ancestors), so what is skipped, dropped or taken for empty here is content - the copy, export or rollback no longer stands for the state it was taken from")
 			}
 		})
